@@ -82,12 +82,14 @@ type Offer struct {
 	Oid       string
 	Size      int64
 	Rel       string // download, upload, verify
+	Shape     string // normal, expired, soon
 	Href      string
 	Header    map[string]string
 	IssuedAt  time.Duration
 	ExpiresAt time.Duration // 0 = never
 	BatchSeq  int
 	Used      int
+	UsedAt    []int // request sequence numbers that used it
 }
 
 // BatchRec is the server's record of one batch exchange.
@@ -104,6 +106,8 @@ type BatchRec struct {
 
 // Deferral records a 429 with Retry-After the server issued.
 type Deferral struct {
+	ReqSeq int // index into Net.Log (-1: issued by an adapter)
+	Step   int
 	At     time.Duration
 	Kind   string // batch, download, upload
 	Oids   []string
@@ -286,6 +290,7 @@ func (s *LFSServer) newOffer(rel, oid string, size int64, batchSeq int, expired,
 		} else {
 			act.ExpiresIn = -(1 + s.C.Choose(key, 100, "expired-ago"))
 		}
+		o.Shape = "expired"
 		o.ExpiresAt = s.Now() // unusable from the start
 		if o.ExpiresAt == 0 {
 			o.ExpiresAt = 1
@@ -297,6 +302,7 @@ func (s *LFSServer) newOffer(rel, oid string, size int64, batchSeq int, expired,
 		} else {
 			act.ExpiresAt = s.WallNow().Add(time.Duration(secs) * time.Second).UTC().Format(time.RFC3339Nano)
 		}
+		o.Shape = "soon"
 		o.ExpiresAt = s.Now() + time.Duration(secs)*time.Second
 	case s.ExpiresInS > 0:
 		act.ExpiresIn = s.ExpiresInS
@@ -331,7 +337,7 @@ func (s *LFSServer) serveBatch(rec *ReqRec) *Resp {
 		if hdr != "" {
 			r.Header.Set("Retry-After", hdr)
 		}
-		s.Deferrals = append(s.Deferrals, &Deferral{At: s.Now(), Kind: "batch", Oids: oids, Until: until, Header: hdr})
+		s.Deferrals = append(s.Deferrals, &Deferral{ReqSeq: rec.Seq, Step: rec.Step, At: s.Now(), Kind: "batch", Oids: oids, Until: until, Header: hdr})
 		return finish(r, "batch.429 retry-after="+hdr)
 	}
 	if s.hit(key, s.F.Batch5xx, "batch.5xx") {
@@ -361,8 +367,10 @@ func (s *LFSServer) serveBatch(rec *ReqRec) *Resp {
 			}
 		}
 	}
+	noteExtra := ""
 	if s.hit(key, s.F.BatchWrongTransfer, "batch.wrongtransfer") {
 		out.Transfer = "carrier-pigeon"
+		noteExtra += "+wrongtransfer"
 	}
 	br.Transfer = out.Transfer
 	switch s.C.Choose(key, 3, "hash-algo-form") {
@@ -371,6 +379,7 @@ func (s *LFSServer) serveBatch(rec *ReqRec) *Resp {
 	}
 	if s.hit(key, s.F.BatchHashAlgo, "batch.hashalgo") {
 		out.HashAlgo = "sha512"
+		noteExtra += "+hashalgo"
 	}
 
 	op := br.Req.Operation
@@ -445,7 +454,7 @@ func (s *LFSServer) serveBatch(rec *ReqRec) *Resp {
 		out.Objects = []*BatchObj{}
 	}
 	b, _ := json.Marshal(out)
-	return finish(JSONResp(200, b), "batch.200")
+	return finish(JSONResp(200, b), "batch.200"+noteExtra)
 }
 
 func (s *LFSServer) findOffer(rec *ReqRec, rel, oid string) *Offer {
@@ -464,6 +473,7 @@ func (s *LFSServer) findOffer(rec *ReqRec, rel, oid string) *Offer {
 		}
 	}
 	o.Used++
+	o.UsedAt = append(o.UsedAt, rec.Seq)
 	return o
 }
 
@@ -485,7 +495,7 @@ func (s *LFSServer) serveGet(rec *ReqRec, oid string) *Resp {
 		if hdr != "" {
 			r.Header.Set("Retry-After", hdr)
 		}
-		s.Deferrals = append(s.Deferrals, &Deferral{At: s.Now(), Kind: "download", Oids: []string{oid}, Until: until, Header: hdr})
+		s.Deferrals = append(s.Deferrals, &Deferral{ReqSeq: rec.Seq, Step: rec.Step, At: s.Now(), Kind: "download", Oids: []string{oid}, Until: until, Header: hdr})
 		r.Note = "get.429 retry-after=" + hdr
 		return r
 	}
@@ -623,7 +633,7 @@ func (s *LFSServer) servePut(rec *ReqRec, oid string) *Resp {
 		if hdr != "" {
 			r.Header.Set("Retry-After", hdr)
 		}
-		s.Deferrals = append(s.Deferrals, &Deferral{At: s.Now(), Kind: "upload", Oids: []string{oid}, Until: until, Header: hdr})
+		s.Deferrals = append(s.Deferrals, &Deferral{ReqSeq: rec.Seq, Step: rec.Step, At: s.Now(), Kind: "upload", Oids: []string{oid}, Until: until, Header: hdr})
 		r.Note = "put.429 retry-after=" + hdr
 		return r
 	}
